@@ -390,7 +390,139 @@ def r7_parser_fails_closed(ctx):
     R.check(bool(sp), "C14.R7", "inner_from_str:port-from-authority-text", "the port is cut out of the authority text", "inner_from_str no longer cuts the port out of the authority text", "%s:%d" % (b.file, b.lo))
 
 
-RULES = [r1_gate, r2_port_table, r3_authority_table, r4_default_port, r5_one_parser_and_enabled_filter, r6_both_sides_spell_hosts_alike, r7_parser_fails_closed, rstatus_http_status_table]
+def r8_ports_registered_per_host(ctx):
+    """the port list registered for a host holds that host's ports only. Structural part: a collection handed to
+    Router::add inside a loop is not an accumulator that lives across iterations - if the registered value (or what it was
+    cloned from) is created outside the loop and pushed to inside it, every iteration that registers it also resets it
+    (clear / mem::take / re-assignment). Otherwise every host also gets the ports of the hosts registered before it."""
+    F, R = ctx.F, ctx.R
+    tr = ctx.tracer(follow_callers=False, follow_fields=False, inline_calls=False)
+    n = 0
+    for b in F.find(r"^<jsonrpsee_server::middleware::http::host_filter::WhitelistedHosts as std::convert::From<T>>::from$"):
+        R.fn(b)
+        for add in b.calls_to(r"^route_recognizer::Router::<.*>::add$"):
+            n += 1
+            loop = {x for x in b.reach_from(add.bb) if add.bb in b.reach_from(x)} | {add.bb}
+            # locals the registered value is (a clone of)
+            srcs = set()
+            work = []
+            pl0 = op_place(add.args[2])
+            if pl0 is not None:
+                work = [pl0["l"]]
+            for _ in range(5):
+                nxt = []
+                for l0 in work:
+                    for v in flow._local_copies_back(b, l0, 6):
+                        if v in srcs:
+                            continue
+                        srcs.add(v)
+                        for bi, si, dpl, src in b.defs.get(v, []):
+                            if src[0] == "call":
+                                f = op_const(src[1]["f"]) or {}
+                                if re.search(r"Clone>?::clone$|ToOwned>?::to_owned$|\]>::to_vec$|Deref>?::deref$", f.get("res", f.get("fn", "")) or "") and src[1]["args"]:
+                                    q = op_place(src[1]["args"][0])
+                                    if q is not None:
+                                        nxt.append(q["l"])
+                work = nxt
+            bad = []
+            for v in sorted(srcs):
+                if not b.locals[v]["ty"].lstrip("&mut ").startswith(("std::vec::Vec<", "alloc::vec::Vec<", "std::collections::", "smallvec::")):
+                    continue
+                def touches(c, v=v):
+                    if not c.args:
+                        return False
+                    pl = op_place(c.args[0])
+                    return pl is not None and v in flow._local_copies_back(b, pl["l"], 6)
+                grows = [c for c in b.calls_to(r"Vec::<.*>::(push|extend|extend_from_slice|insert|append)$|Extend<.*>>::extend$") if c.bb in loop and touches(c)]
+                if not grows:
+                    continue
+                created_in_loop = any(bi in loop for bi, si, dpl, src in b.defs.get(v, []) if not dpl.get("p"))
+                resets = [c for c in b.calls_to(r"Vec::<.*>::(clear|truncate|drain)$|^std::mem::(take|replace|swap)$|^core::mem::(take|replace|swap)$") if c.bb in loop and touches(c)]
+                if not created_in_loop and not resets:
+                    bad.append((v, grows[0]))
+            R.check(not bad, "C14.R8", "%s:ports-fresh-per-host" % fkey(b), "the port list registered for a host is built for that host alone", "the port list handed to Router::add (%s) is created outside the loop, grown inside it (%s) and never reset: every host is registered with its own ports plus those of all hosts registered before it, so a request for one host is admitted on another host's port" % (", ".join(b.local_name(v) or "_%d" % v for v, _ in bad), ", ".join(where(g) for _, g in bad)), where(add))
+    R.floor("C14.R8", n, 1, "Router::add sites in the allow-list constructor")
+
+
+def _u16_sources(F, tr, b, op, depth=0, seen=None):
+    """leaves of a port number: (ok, description) per origin; in-crate helpers are followed through their return value"""
+    out = []
+    seen = seen if seen is not None else set()
+    for l in tr.origins(b, op):
+        if l.kind == "call":
+            callee = l.detail.get("callee") or ""
+            decl = l.detail.get("declared") or ""
+            call = next((c for c in b.calls if c.bb == l.detail.get("bb")), None)
+            if re.search(r"str::<impl str>::parse$", callee) and call is not None and call.ga and call.ga[-1] == "u16":
+                out.append((True, "str::parse::<u16>"))
+                continue
+            if re.search(r"<u16 as std::str::FromStr>::from_str$|^core::num::<impl u16>::from_str_radix$", callee):
+                out.append((True, "u16::from_str"))
+                continue
+            if re.search(r"Authority::port_u16$|uri::Port::<.*>::as_u16$", callee):
+                out.append((True, "http's own port parser"))
+                continue
+            tgt = F.bodies.get(callee) or F.bodies.get(decl)
+            if tgt is not None and tgt.crate == SERVER and depth < 3 and tgt.path not in seen:
+                seen.add(tgt.path)
+                out += _u16_sources(F, tr, tgt, {"cp": {"l": 0}}, depth + 1, seen)
+                continue
+            out.append((False, "result of %s" % short(callee)))
+        elif l.kind == "agg" and l.detail.get("variant") in ("Err", "None"):
+            continue
+        elif l.kind == "agg" and l.detail.get("variant") in ("Ok", "Some") and l.detail.get("ops"):
+            out += _u16_sources(F, tr, F.bodies[l.where], l.detail["ops"][0], depth, seen)
+        elif l.kind == "const":
+            out.append((True, "constant"))
+        else:
+            out.append((False, flow.leaf_str(l)[:80]))
+    return out
+
+
+def r9_port_numbers_are_parsed_as_u16(ctx):
+    """a port is a number in 0..=65535: the number that becomes Port::Fixed / is compared with the default port comes
+    from the standard u16 parser, which refuses out-of-range text. A hand-rolled digit fold that wraps makes `:73616`
+    equal to `:8080`; also no wrapping / truncating integer operation appears in the authority module."""
+    F, R = ctx.F, ctx.R
+    tr = ctx.tracer(follow_callers=False, follow_fields=False, inline_calls=False)
+    n = 0
+    mods = [b for b in F.real_bodies() if b.crate == SERVER and b.path.startswith(("jsonrpsee_server::middleware::http::authority::", "<jsonrpsee_server::middleware::http::authority::")) and not is_test_body(b)]
+    for b in mods:
+        R.fn(b)
+        if re.search(r"Port as std::convert::From<u16>>::from$", b.path):
+            continue
+        sites = [(c, c.args[0]) for c in b.calls_to(r"Into<.*>>::into$|Into::into$|From<u16>>::from$") if c.ga and c.ga[0] == "u16" and "Port" in (c.ga[-1] if len(c.ga) > 1 else (c.self_ty or ""))]
+        sites += [(c, c.args[0]) for c in b.calls_to(r"Port as std::convert::From<u16>>::from$")]
+        for bi, blk in enumerate(b.blocks):
+            if blk.get("cleanup") or bi not in b.reachable:
+                continue
+            for st in blk["st"]:
+                if st["s"] == "assign" and st["rv"]["k"] == "agg" and st["rv"].get("variant") == "Fixed" and st["rv"].get("adt", "").endswith("authority::Port"):
+                    sites.append((None, st["rv"]["ops"][0]))
+        for c, op in sites:
+            n += 1
+            srcs = _u16_sources(F, tr, b, op)
+            bad = sorted({d for ok, d in srcs if not ok})
+            R.check(bool(srcs) and not bad, "C14.R9", "%s:port-number-source" % fkey(b), "the port number comes from the standard u16 parser", "the number that becomes the port is produced by %s, not by the standard u16 parser: out-of-range port text (`:73616`) is no longer refused and can wrap onto an allowed port" % (bad or "nothing traceable"), where(c) if c else "%s:%d" % (b.file, b.lo))
+    R.floor("C14.R9", n, 1, "u16 -> Port conversion sites in the authority parser")
+    wrap = []
+    for b in mods:
+        for x in F.nested(b):
+            wrap += [(short(c.name()), where(c)) for c in x.calls_to(r"num::<impl u(8|16|32|64|size)>::(wrapping_\w+|overflowing_\w+|saturating_\w+)$") if not c.exp]
+            for bi, blk in enumerate(x.blocks):
+                if blk.get("cleanup") or bi not in x.reachable:
+                    continue
+                for st in blk["st"]:
+                    rv = st.get("rv") if st["s"] == "assign" else None
+                    if rv and rv["k"] == "cast" and rv.get("ty") in ("u16", "u8") and "IntToInt" in str(rv.get("ck")):
+                        src = op_place(rv["op"])
+                        sty = x.locals[src["l"]]["ty"] if src is not None and not src.get("p") else "?"
+                        if sty in ("u32", "u64", "usize", "i32", "i64", "isize", "u128", "i128"):
+                            wrap.append(("%s as %s" % (sty, rv.get("ty")), "%s:%d" % (x.file, st["sp"][0])))
+    R.check(not wrap, "C14.R9", "authority:no-wrapping-arithmetic", "no wrapping / truncating integer operation in the authority module", "the authority module computes with wrapping / truncating integer operations (%s): a port outside 0..=65535 wraps onto a valid one" % sorted({d for d, _ in wrap}), wrap[0][1] if wrap else None)
+
+
+RULES = [r8_ports_registered_per_host, r9_port_numbers_are_parsed_as_u16, r1_gate, r2_port_table, r3_authority_table, r4_default_port, r5_one_parser_and_enabled_filter, r6_both_sides_spell_hosts_alike, r7_parser_fails_closed, rstatus_http_status_table]
 
 LEVEL_TEXT = (
     "The gate (who may reach the inner service) is decided by dominance for every path of HostFilter::call, and the three "
